@@ -11,19 +11,19 @@ use super::cffw;
 use std::io::Write;
 use vh::fontgen::{self, build_sfnt, triangle, TtFont, W};
 
-pub const NAMES: [&str; 19] = [
+pub const NAMES: [&str; 20] = [
     "synth/eblc", "synth/cblc", "synth/sbix+post1", "synth/svg+post25", "synth/kern+post4", "synth/morx", "synth/cmap+post2", "synth/var",
     "synth/cff2-fds3", "synth/cff2-fds0", "synth/cff-cid", "synth/eblc-aligned",
     // round 4: charstrings whose operators take as many operands as the interpreter's stack holds (CFF2 513, CFF 48);
     // variable fonts whose name strings are long and made of letters outside ASCII (every UTF-8 width, every platform
     // `NameTable::string_for_id` decodes, each of the name ids 25 / 16 / 1 as the source of the PostScript name prefix)
-    "synth/cff2-stack", "synth/cff-stack", "synth/cff2-stack+1", "synth/cff-stack+1", "synth/var-name25", "synth/var-name16", "synth/var-name1",
+    "synth/cff2-stack", "synth/cff-stack", "synth/cff2-stack+1", "synth/cff-stack+1", "synth/cff2-real+1", "synth/var-name25", "synth/var-name16", "synth/var-name1",
 ];
 
 /// inputs that are in the run for what their *content* makes the entry points do, not for the fields of their (ordinary)
 /// variation / CFF2 tables: they are not made champions of those table kinds
 pub fn content_only(name: &str) -> bool {
-    matches!(name, "synth/cff2-stack" | "synth/cff-stack" | "synth/cff2-stack+1" | "synth/cff-stack+1" | "synth/var-name25" | "synth/var-name16" | "synth/var-name1")
+    matches!(name, "synth/cff2-stack" | "synth/cff-stack" | "synth/cff2-stack+1" | "synth/cff-stack+1" | "synth/cff2-real+1" | "synth/var-name25" | "synth/var-name16" | "synth/var-name1")
 }
 
 /// table kinds a synthesized input stands for in the quick tier (every structural field x every class)
@@ -65,6 +65,7 @@ pub fn build(name: &str) -> Option<Vec<u8>> {
         "synth/cff-stack" => cff_font(1, 3, 1),
         "synth/cff2-stack+1" => cff_font(2, 3, 2),
         "synth/cff-stack+1" => cff_font(1, 3, 2),
+        "synth/cff2-real+1" => cff_font(2, 3, 3),
         _ => return None,
     })
 }
@@ -1152,7 +1153,7 @@ fn var_font(names: Vec<u8>, lean: bool) -> Vec<u8> {
 /// Private DICT entries (CFF2, Font DICT 0: one region) that fill the fixed-size buffers of a DICT reader / instancer:
 /// `stack` 1: BlueValues = blend of two values whose first is a real number of exactly 64 characters (the buffer a real
 /// number is converted through holds 64) and StemSnapH = blend of 256 values with one delta each (513 operands, the most a
-/// CFF2 DICT operator may have); `stack` 2: real numbers of 65 characters, and of 63 characters followed by the nibble that
+/// CFF2 DICT operator may have); `stack` 3: real numbers of 65 characters, and of 63 characters followed by the nibble that
 /// stands for the two characters "E-" (an error is the expected answer of the instancer; the table itself still loads).
 fn dict_fill(stack: u8) -> Vec<u8> {
     // real number "1." + zeros, `chars` characters long (+ optionally the nibble c = "E-" and a digit), end nibble f
@@ -1188,7 +1189,7 @@ fn dict_fill(stack: u8) -> Vec<u8> {
             d.push(23);
             d.extend([12, 12]);
         }
-        2 => {
+        3 => {
             d.extend(real(65, false));
             d.extend(int(10));
             d.extend(real(63, true));
@@ -1344,7 +1345,8 @@ fn stack_glyphs(cff2: bool, over: bool) -> Vec<Vec<u8>> {
 
 /// `kind` 2 = CFF2 (FDSelect format `fds_fmt`), 1 = CID-keyed CFF (FDSelect format `fds_fmt`)
 /// `stack` 1 / 2: after the six ordinary glyphs come the glyphs of `stack_glyphs(.., over = stack == 2)` (global
-/// subroutine 2 is the bare hvcurveto they call).
+/// subroutine 2 is the bare hvcurveto they call); 3: the ordinary glyphs only, over-long real numbers in the Private DICT
+/// (`dict_fill`: the Private DICTs are instanced after all charstrings, so they sit in a font whose charstrings pass).
 fn cff_font(kind: u8, fds_fmt: u8, stack: u8) -> Vec<u8> {
     let n = 6usize;
     let cff2 = kind == 2;
@@ -1386,7 +1388,7 @@ fn cff_font(kind: u8, fds_fmt: u8, stack: u8) -> Vec<u8> {
         glyphs.push(cs);
     }
     let mut gsubrs = vec![subr.clone(), subr.clone()];
-    if stack > 0 {
+    if stack == 1 || stack == 2 {
         glyphs.extend(stack_glyphs(cff2, stack == 2));
         gsubrs.push(if cff2 { vec![31] } else { vec![31, 11] });
     }
